@@ -112,9 +112,12 @@ def from_edge(edge: EdgeTemplate, return_dict: dict, base: str = 'EdgeTemplate')
 
 def add_to_dict(template, template_dict: dict, full_dict: dict):
 
+    # templates that share their name but not their content get the first free key `<name>_num<n>`; a template
+    # whose content has been stored under one of these keys already is stored once
     temp_key = template.name
-    existing_labels = {key: 0 for key in full_dict.keys()}
-    if temp_key in full_dict and full_dict[temp_key] != template_dict:
-        temp_key, _ = get_unique_label(temp_key, existing_labels)
+    n = 0
+    while temp_key in full_dict and full_dict[temp_key] != template_dict:
+        n += 1
+        temp_key = f"{template.name}_num{n}"
     full_dict[temp_key] = template_dict
     return temp_key
